@@ -15,7 +15,7 @@ RULE = ("(unroll) seeded acyclic circuits x injective output->input pairings x n
         "evaluated bit-parallel; distinct = canonical net + configuration; non-trivial = some observed output at the "
         "last step depends on a step-0 signal through the state")
 PROBES = ["n=1", "state_output_is_primary_input", "flop_feeds_flop", "initial:None", "initial:0", "initial:1",
-          "initial:dict", "add_flop_outputs", "remove_unloaded", "keep_unloaded", "unroll", "sequential", "ignore_pins", "repeated_call_same_objects", "net_named_like_a_live_pin"]
+          "initial:dict", "add_flop_outputs", "remove_unloaded", "keep_unloaded", "unroll", "sequential", "ignore_pins", "repeated_call_same_objects", "net_named_like_a_live_pin", "second_output_pin_read", "ignore_pins_as_iterator"]
 ASSUMPTIONS = ["<= 14 free bits in total (state + n x inputs), <= 4 state bits, n <= 6 mostly and 10-12 in a tenth of the runs"]
 TIME_UNIT = "circuit clock cycles executed by the reference state machine"
 
@@ -47,8 +47,10 @@ def gen(rng, tier):
     pins_in = rng.choice((["clk", "d"], ["clk", "rst", "d"], ["d"]))
     tname = rng.choice(("dff", "ff"))
     nflops = rng.randint(1, 4)
+    # a flop type with a second output pin (an inverted output, a scan output)
+    pins_out = ["q", "qn"] if rng.random() < 0.12 else ["q"]
     net = G.gen_net(rng, n_inputs=(1, 3), n_gates=(1, 9), types=G.swarm_types(rng), max_arity=3, constants=0.15,
-                    bbs=(nflops, nflops), bb_types=[(tname, pins_in, ["q"])], name_style="plain", min_outputs=1,
+                    bbs=(nflops, nflops), bb_types=[(tname, pins_in, pins_out)], name_style="plain", min_outputs=1,
                     input_outputs=0.1)
     nodes = net["nodes"]
     # dedicated clock / reset inputs for the non-data pins
@@ -67,10 +69,11 @@ def gen(rng, tier):
         # a flop whose Q pin is not connected to anything (an unobserved state bit)
         inst = "dead0"
         if inst not in net["bbs"] and not any(n.startswith(inst) for n in nodes):
-            net["bbs"][inst] = [tname, list(pins_in), ["q"]]
+            net["bbs"][inst] = [tname, list(pins_in), list(pins_out)]
             for p in pins_in:
                 nodes[f"{inst}.{p}"] = ["bb_input", [rng.choice(sigs)] if p == "d" else [p + "_in"], False]
-            nodes[f"{inst}.q"] = ["bb_output", [], False]
+            for p in pins_out:
+                nodes[f"{inst}.{p}"] = ["bb_output", [], False]
     # flop feeding flop directly
     insts = list(net["bbs"])
     if len(insts) >= 2 and rng.random() < 0.4:
@@ -122,7 +125,7 @@ def gen(rng, tier):
     if iv == "dict":
         iv = {i: rng.choice(("0", "1")) for i in insts if rng.random() < 0.7}
     return {"kind": "sequential", "net": net, "n": rng.randint(10, 12) if rng.random() < 0.1 else rng.randint(1, 5), "d": "d", "q": "q",
-            "ignore_pins": ignore,
+            "ignore_pins": ignore, "ignore_iter": rng.random() < 0.2,
             "add_flop_outputs": rng.random() < 0.5, "initial_values": iv, "remove_unloaded": rng.random() < 0.6,
             "repeat_first": rng.random() < 0.35,
             "peer": {"seed": rng.getrandbits(32)}}
@@ -270,7 +273,35 @@ def run(case, ctx):
             if "Overlapping blackbox name" in str(e):
                 ctx.violate("C09.name_overlap", f"a net of the circuit is called {pin_named[0]} (<flop>_<pin>): sequential_unroll "
                             f"cannot even strip the flops: {e}", {"kind": "sequential", "pin_named_net": True, "exc": "ValueError"})
-    repeat_first = bool(case.get("repeat_first"))
+    extra_used = sorted(f"{i}.{p}" for i in insts for p in pin_out if p != q and p not in ign and fo[f"{i}.{p}"])
+    if extra_used:
+        # logic reads an output pin of the flops other than Q: the flop is a blackbox, nothing says what that pin
+        # carries, so no unrolled circuit can match the simulation.  The only sound outcome is a refusal; a circuit
+        # in which the readers of that pin silently lost their driver is not.
+        ctx.probe("second_output_pin_read")
+        sigx = dict(sig, second_output_read=True)
+        try:
+            ctx.warm(cg.tx.sequential_unroll, c, n, d, q, ignore_pins=ip_obj)
+            got = cg.tx.sequential_unroll(c, n, d, q, ignore_pins=ip_obj, add_flop_outputs=case["add_flop_outputs"],
+                                          initial_values=iv_obj, remove_unloaded=case["remove_unloaded"])
+        except ValueError:
+            ctx.stats["steps"] += 1
+            return True
+        except Exception as e:
+            ctx.violate("C09.sequential_raises", f"sequential_unroll raised {type(e).__name__}: {e}", sigx)
+            return True
+        gs = ref.snapshot(got[0])
+        ctx.violate("C09.second_output_dropped", f"logic reads {extra_used[0]} but sequential_unroll returned a circuit "
+                    f"(ill-formed: {ref.wiring_violations(gs, undriven=True)[:2]})", sigx)
+        return True
+    ip_iter = bool(case.get("ignore_iter")) and isinstance(ip_obj, list) and len(ip_obj) >= 1
+    if ip_iter:
+        # the ignored pins handed over as a one-shot iterable
+        ctx.probe("ignore_pins_as_iterator")
+        ip_obj = iter(list(ip_obj))
+        ctx.twice = ctx.stale = False
+        sig["ignore_as"] = "iterator"
+    repeat_first = bool(case.get("repeat_first")) and not ip_iter
     if repeat_first:
         # history: an earlier call (shallower unrolling) made with the very same argument objects, as in a
         # deepening loop `for n in 1..N: sequential_unroll(c, n, ..., initial_values=my_dict)`
@@ -376,7 +407,7 @@ def shrink(case):
             sio = {k: v for k, v in case["state_io"].items() if k in outs and v in ins}
             yield dict(case, net=net, state_io=sio)
         return
-    for key, val in (("ignore_pins", None), ("add_flop_outputs", False), ("initial_values", None), ("remove_unloaded", False),
+    for key, val in (("ignore_iter", False), ("ignore_pins", None), ("add_flop_outputs", False), ("initial_values", None), ("remove_unloaded", False),
                      ("repeat_first", False)):
         if case[key] != val:
             yield dict(case, **{key: val})
